@@ -605,6 +605,25 @@ def t4(prog: Program, chk: Check) -> None:
             f"index form {idx}: the boundary identity is exported instead of the bond lambda")
 
 
+def t7(prog: Program, chk: Check) -> None:
+    chk.rule("T7", "derived state that a method recomputes only when it is missing (early return "
+             "while the cached attribute is set) is reset by every method that changes what it "
+             "was computed from: otherwise a read-out between two compute calls leaves a cache "
+             "behind and the next step records the state of the previous one (expected count on "
+             "the pinned tree: no such cache)", floor=1)
+    from rules.c20 import guarded_caches
+    gc, n_guards = guarded_caches(prog)
+    for (gu, attr, mu, written) in gc:
+        chk.saw(gu)
+        chk.add("T7", gu, f"cache {attr} (guarded early return) vs "
+                f"{mu.qual.split(':')[1]} writing {written}", False,
+                f"{mu.qual.split(':')[1]} changes {written} without resetting {attr}: "
+                f"compute(k); <read-out>; compute(T) differs from compute(T)", gu.node)
+    chk.add("T7", prog.module("backends.pt_tebd_backend"),
+            f"{n_guards} guarded caches found in the package", True,
+            "every one is reset by all writers of its sources" if not gc else "see violations")
+
+
 def run(prog: Program, chk: Check) -> None:
     chk.explanation = (
         "Decides continuation / idempotence guards of the five method objects (T1), idempotent "
@@ -618,9 +637,10 @@ def run(prog: Program, chk: Check) -> None:
                        "mutator-name table for NodeArray / list methods"]
     chk.extra["foreign_attrs"] = FOREIGN_ATTRS
     chk.extra["t3_exceptions"] = {" | ".join(k): v for k, v in T3_EXCEPTIONS.items()}
-    t1(prog, chk)
-    t5(prog, chk)
-    t6(prog, chk)
-    t2(prog, chk)
-    t3(prog, chk)
-    t4(prog, chk)
+    chk.call(t1, prog, chk)
+    chk.call(t5, prog, chk)
+    chk.call(t6, prog, chk)
+    chk.call(t2, prog, chk)
+    chk.call(t3, prog, chk)
+    chk.call(t4, prog, chk)
+    chk.call(t7, prog, chk)
